@@ -695,7 +695,7 @@ func judgeMin(c minCase, out outcome, reused bool) *vk.Failure {
 	}
 	if out.modified != "" {
 		// only InitValues is documented as "may be modified during the call"
-		return vk.Failf("minimize-modifies-caller-data", "%s: %s", out.modified, desc())
+		return vk.Failf("caller-data-modified", "%s: %s", out.modified, desc())
 	}
 	nT := c.tasks(o.dim)
 	serial := nT == 1
@@ -991,7 +991,7 @@ func judgeMin(c minCase, out outcome, reused bool) *vk.Failure {
 	// decreasing locations; a global method that never saw a value below +Inf
 	// still has to report one of its samples)
 	{
-		if !evaluated && out.tp.anyBad && badF && (c.Method == mGuess || c.Method == mCmaEs) && !(out.tp.minF < math.Inf(1)) {
+		if (!evaluated || !valueOK) && out.tp.anyBad && badF && (c.Method == mGuess || c.Method == mCmaEs) && !(out.tp.minF < math.Inf(1)) {
 			// no value below +Inf was ever returned: the best-location buffer
 			// (zeros, or the best point of the previous run of a reused method
 			// value) is declared although it was never written in this run
